@@ -117,6 +117,23 @@ Section Id.
   Qed.
 End Id.
 
+Lemma to_json_faithful m1 m2 : wf m1 -> wf m2 -> (to_json m1 = to_json m2 <-> nf m1 = nf m2).
+Proof. intros W1 W2. split; [exact (to_json_inj m1 m2 W1 W2)|exact (nf_to_json m1 m2)]. Qed.
+
+Lemma id_invariant_full dumps hexH repr version b e l m :
+  wf m ->
+  id_preimage dumps hexH repr version b e l (Some (to_json m))
+    = Some (version ++ repr b ++ repr e ++ repr l ++ hexH (dumps (to_json m))) /\
+  id_preimage dumps hexH repr version b e l (Some (to_json (of_json (to_json m))))
+    = id_preimage dumps hexH repr version b e l (Some (to_json m)) /\
+  (forall m', wf m' -> nf m = nf m' ->
+     id_preimage dumps hexH repr version b e l (Some (to_json m')) = id_preimage dumps hexH repr version b e l (Some (to_json m))).
+Proof.
+  intros W. split; [exact (pre_dumped dumps hexH repr version b e l m W)|].
+  split; [exact (pre_invariant dumps hexH repr version b e l m W)|].
+  intros m' W' E. symmetry. exact (pre_same_metabook dumps hexH repr version b e l m m' W W' E).
+Qed.
+
 (* an instance of the repr hypothesis (non-vacuity): tag + self-delimiting body *)
 Definition enc_ex (s : str) : str := flat_map (fun c => [2%N; c]) s ++ [3%N].
 Definition repr_ex (o : option str) : str := match o with None => [0%N] | Some s => 1%N :: enc_ex s end.
